@@ -239,6 +239,33 @@ def ground_series_job(family, fns):
     return summary(ex, '%s: clause (a) for %d instances constructed together' % (family, len(fns)), {'family': family})
 
 
+def scan_job(family, fns, G):
+    """Families whose clauses (b), (c) the solvers cannot decide (Grishagin, Shekel4): a NATIVE grid scan that can only FIND a lower point (a concrete
+    counterexample to clause (b)); finding none proves nothing and is reported as 'not decided'.  Bug hunting only -- labelled as such."""
+    st = bench.setup()
+    mods = st['mods']
+    import itertools
+
+    def h(ex):
+        for fn in fns:
+            p = mods['grishagin'].Grishagin(fn) if family == 'grishagin' else mods['shekel4'].Shekel4(fn)
+            xs, fs = bench.known(p)
+            lo = [float(v) for v in p.lowerBoundOfFloatVariables]
+            up = [float(v) for v in p.upperBoundOfFloatVariables]
+            best, arg = None, None
+            axes = [[lo[c] + (up[c] - lo[c]) * (i + 0.5) / G for i in range(G)] for c in range(len(lo))]
+            for pt in itertools.product(*axes):
+                v = float(bench.evaluate(p, list(pt))[0])
+                if best is None or v < best:
+                    best, arg = v, list(pt)
+            ex.prove(best >= fs - tol_b(fs), 'C10 B-SCAN: a native grid scan finds no point lower than the declared value by more than the tolerance (bug hunting only)',
+                     {'fn': fn, 'family': family, 'grid_min': best, 'at': arg, 'f_declared': fs})
+        ex.tag('scan-' + family)
+    ex = Explorer(mode='EXACT', name='scan %s' % family)
+    ex.explore(h)
+    return summary(ex, '%s: native grid scan %d^N of %d instances (bug hunting only, proves nothing)' % (family, G, len(fns)), {'family': family})
+
+
 def ground_job(family, fn):
     """clause (a) only"""
     st = bench.setup()
@@ -311,6 +338,7 @@ elif family in ('shekel',) and num(model.get('x', '')) is not None:
 elif all(num(model.get('x%%d' %% c, '')) is not None for c in range(len(xs))):
     pt = [num(model['x%%d' %% c]) for c in range(len(xs))]
 cands = [pt] if pt else []
+if %(at)r: cands.append(%(at)r)
 # plus a coarse native scan around the solver's point and over the box (confirmation only)
 import random
 rnd = random.Random(1)
@@ -379,11 +407,15 @@ def main():
         jobs.append((ground_series_job, ('hill', list(range(a, a + 250)))))
         jobs.append((ground_series_job, ('shekel', list(range(a, a + 250)))))
     jobs.append((ground_series_job, ('shekel4', [1, 2, 3])))
+    for a in range(1, 101, 10):
+        jobs.append((scan_job, ('grishagin', list(range(a, a + 10)), 60 if quick else 140)))
+    jobs.append((scan_job, ('shekel4', [1, 2, 3], 9 if quick else 14)))
     jobs.append((ground_job, ('stronginC3', 0)))
     run.bound(instances='Hill %d (all), Shekel %d (seeded sample in the quick tier, all 1000 in the thorough tier), Rastrigin and XSquared N = 1..5, '
                         'GKLS %d instances (clauses b, c), Grishagin / Shekel4 / StronginC3 clause (a) only' % (len(hills), len(sheks), len(gk)),
               points='every point of the continuous box (solver-decided), except Hill x = 1/2 (evaluated natively)')
-    run.not_covered('clauses (b), (c) for Grishagin, Shekel4, StronginC3 (out of reach of the solvers here); Rastrigin / XSquared dimensions above 5; '
+    run.not_covered('clauses (b), (c) for Grishagin, Shekel4, StronginC3 are NOT decided (out of reach of the solvers here); for Grishagin and Shekel4 a native grid scan is run '
+                    'that can only find concrete counterexamples to (b) -- bug hunting, it supports no claim; Rastrigin / XSquared dimensions above 5; '
                     'GKLS instances outside the sample in clauses (b), (c)')
     run.parallel(jobs, chunks=8)
     seen = set()
@@ -393,7 +425,7 @@ def main():
         if head in seen or len(seen) > 30:
             continue
         seen.add(head)
-        rp = run.write_replay('%s' % d.get('family'), REPLAY % {'family': d.get('family'), 'fn': d.get('fn'), 'model': c['model'], 'label': c['label'], 'series': d.get('series')})
+        rp = run.write_replay('%s' % d.get('family'), REPLAY % {'family': d.get('family'), 'fn': d.get('fn'), 'model': c['model'], 'label': c['label'], 'series': d.get('series'), 'at': d.get('at')})
         ok, out = run.run_replay(rp)
         if ok:
             run.confirmed('C10:%s:%s:%s' % (d.get('family'), d.get('fn'), c['label'][:5]), '%s(%s): %s' % (d.get('family'), d.get('fn'), (out or '').strip()[-300:]), rp)
